@@ -60,7 +60,7 @@ theorem uncontractGeneral_shape [DecidableEq ν] (val : ν → Rat) (shells out 
 theorem uncontractSpdf_shape (k : Nat) (shells : List (Shell ν)) (s : Shell ν)
     (hs : s ∈ uncontractSpdf k shells) (hf : s.am.length > 1) : ∀ a ∈ s.am, a ≤ k := by
   obtain ⟨sh, _, hcase⟩ := (mem_uncontractSpdf k shells s).1 hs
-  rcases hcase with ⟨hn, rfl⟩ | ⟨_, rfl | hin⟩
+  rcases hcase with ⟨hn, rfl⟩ | ⟨_, ⟨rfl, _⟩ | hin⟩
   · exact absurd hf hn
   · intro a ha
     simp only [splitFused, List.mem_map, List.mem_filter] at ha
